@@ -3,6 +3,7 @@ F = "kappadata/wrappers/sample_wrappers/kd_mix_wrapper.py"
 OH = "kappadata/utils/one_hot.py"
 
 MUTANTS = [
+    ("mixed label written slot by slot, second weight assigned", [(OH, "def to_one_hot_matrix(y, n_classes):", "def to_mixed_vector(y1, y2, weight, n_classes):\n    mixed = torch.zeros(n_classes)\n    mixed[y1] = weight\n    mixed[y2] = 1. - weight\n    return mixed\n\n\ndef to_one_hot_matrix(y, n_classes):")], "G6.slot-accumulate"),
     ("lambda drawn from the global RNG", [(F, "lamb = torch.tensor([rng.beta(alpha, alpha)])", "lamb = torch.tensor([np.random.beta(alpha, alpha)])")], None),
     ("partner drawn from a second generator", [(F, "        idx2 = rng.integers(len(self))\n", "        rng2 = get_rng_from_global()\n        idx2 = rng2.integers(len(self))\n")], "G4.one-draw"),
     ("seed ignores the index", [(F, "rng = np.random.default_rng(seed=self.seed + idx)", "rng = np.random.default_rng(seed=self.seed)")], "G4.one-draw"),
@@ -23,6 +24,7 @@ MUTANTS = [
 ]
 
 BENIGN = [
+    ("mixed label written slot by slot, second weight added", [(OH, "def to_one_hot_matrix(y, n_classes):", "def to_mixed_vector(y1, y2, weight, n_classes):\n    mixed = torch.zeros(n_classes)\n    mixed[y1] = weight\n    mixed[y2] += 1. - weight\n    return mixed\n\n\ndef to_one_hot_matrix(y, n_classes):")]),
     ("label mix via the view", [(F, "cls.mul_(lamb).add_(cls2.mul_(1. - lamb))", "cls.mul_(lamb).add_(cls2.mul_(-lamb + 1.))")]),
     ("projection without keyword", [(F, "        return self.getitem_xclass(idx, ctx=ctx)[0]", "        return self.getitem_xclass(idx, ctx)[0]")]),
     ("partner index via local bound", [(F, "        idx2 = rng.integers(len(self))\n", "        idx2 = rng.integers(len(self))\n        assert 0 <= idx2\n")]),
